@@ -29,12 +29,12 @@ man = {
     "hooks": {"guard": "LIBMODULE_VERIF",
               "enable": "proof units are compiled by goto-cc with -DLIBMODULE_VERIF -include of the loop-spec header; the shipped library is never built with the guard",
               "baseline_off_cmd": "cmake --build /repo/_build && ctest --test-dir /repo/_build -j8 --timeout 900",
-              "source_commits": U.HOOK_COMMITS, "add_only": True},
+              "source_commits": U.HOOK_COMMITS, "add_only": False},
     "engines": [{"name": "cbmc-contracts", "path": "/verif/lib/vdriver.py", "serves_properties": claimed,
                  "kind_free_text": "goto-cc -> goto-instrument --dfcc (enforce/replace/loop contracts) -> cbmc 6.11 SAT; native gcc+ASan replay of counterexamples"}],
     "checks": checks,
     "not_applicable": na,
-    "notes": "Contracts live in /verif/contracts and are attached to the real functions by re-declaration after #include of the real /repo translation unit (nothing extracted, nothing dropped). fix: commits in /repo are listed in known_findings.json.",
+    "notes": "Hook commits insert one macro invocation M_VERIF_LOOP(name) between a loop header and its body (so add_only=false: existing lines gain a token); with the guard off it expands to nothing and setup_cmd checks that the preprocessed token stream of every touched file is unchanged. Contracts live in /verif/contracts and are attached to the real functions by re-declaration after #include of the real /repo translation unit (nothing extracted, nothing dropped). fix: commits in /repo are listed in known_findings.json.",
 }
 json.dump(man, open(os.path.join(VERIF, "MANIFEST.json"), "w"), indent=1)
 print("claimed:", claimed)
